@@ -3,6 +3,17 @@
 Real code: RateLimiter / RateLimit, imported from the repository at run time and used as the cloud
 sessions use it: `async with limiter: ...`.  The limiter reads `time.time()` (simulated: integer epoch
 + loop time) and sleeps with `asyncio.sleep` (simulated timer).
+Limiters: 1 (the boring choice), 2 or 3 RateLimiter instances alive in the same process and loop, each with a
+RateLimit (count 1..5, window) of its own drawn from a stream of its own (`limiter<j>`), as two rate-limited cloud
+clients of one process have them.  Every actor has a home limiter and enters, per entry, its home limiter or a seeded
+other one, so entries of different limiters interleave: one limiter is full while another admits, a short-window
+limiter is entered after its own window has elapsed while a long-window one still holds recent admissions.  Every
+instance is judged separately, by the oracles below, over its own admission history.
+Run isolation: the module body of hailtop/utils/rate_limiter.py is re-executed in the module's namespace at the start
+of every run (importlib.reload with the compiled code cached per worker), so class-level or module-level state of the
+limiter cannot leak from one run of a worker process into the next; a run is a function of its choices and replays in
+a fresh interpreter.  (Without it a limiter that keeps state on the class made sweeps irreproducible: found with the
+seeded change C24-6.)
 Actors: K entrant actors doing seeded sequences of think / `async with limiter` / short body.  Per actor a
 pace (bursty, about one window, about two windows) decides the think times, so some runs hammer the
 limiter with simultaneous arrivals and some let whole windows expire.  Every entry runs in a task of its
@@ -52,6 +63,13 @@ Seeded changes of the coordinator (tools/run_seeded.py <name> C24, quick):
                                                                  sleeps again although the window has room)
 * C24-3 `__aexit__` pops the newest stamp when the body raised -> caught  C24/rate/more_than_count_in_window (needs a body that
                                                                  raises or is cancelled and another entry within the window)
+* C24-6 the stamp deque is a class attribute (shared by all   -> caught  C24/asap/blocked_with_room_in_window (a limiter
+        limiters of the process)                                 counts the other's stamps) and C24/rate/more_than_count_in_window
+                                                                 (the short-window limiter sweeps the other's stamps away).
+                                                                 Needs two limiters in one run.  The first version of this
+                                                                 scenario had one limiter per run and no run isolation: the
+                                                                 shared deque survived from run to run inside a worker, the
+                                                                 violations it produced did not replay (harness error).
 """
 import asyncio
 
@@ -59,13 +77,16 @@ from simkit.core import Violation
 from worlds.common import simulate
 
 NAME = 'prims.ratelimit'
-RULE = ('count 1..5, window 1..24 (thorough 1..64) ticks of 1/1024 s, integer epoch offset, 1..6 (8) entrant actors x '
+RULE = ('1..3 limiter instances per run, each with count 1..5 and window 1..24 (thorough 1..64) ticks of 1/1024 s of its '
+        'own, used concurrently (home limiter per actor, seeded other limiter per entry) and judged separately; '
+        'integer epoch offset, 1..6 (8) entrant actors x '
         '1..4 (6) entries each in a task of its own, per-actor pace: think 0..3 ticks / 0..window / 0..2*window, body '
         '0..4 ticks ending normally or by exception (p=1/6), per-entry cancellation (p=0.12) after 0..max(8,window) '
         'ticks, 0..3 loop stalls of 1..2*window ticks at seeded instants')
 COMPONENTS = {
     'hailtop.utils.rate_limiter.RateLimiter': 'real',
     'hailtop.utils.rate_limiter.RateLimit': 'real',
+    'hailtop.utils.rate_limiter (module state)': 'real; module body re-executed at the start of every run (run isolation)',
     'time.time / asyncio.sleep': 'simulated clock and timers (SimLoop, 2^-20 s grid, integer epoch)',
     'entrant actors, canceller timers, staller (advances the loop clock)': 'simulator actors',
 }
@@ -86,24 +107,81 @@ def _timer_due_now(loop):
     return any((not h._cancelled) and h._when <= now for h in loop._scheduled)  # pylint: disable=protected-access
 
 
+_CODE = {}
+
+
+def _fresh_rate_limiter_module():
+    """Re-executes the module body of the live tree's hailtop/utils/rate_limiter.py in the module's own namespace
+    (what importlib.reload does, with the compiled code cached per worker process), so that every run gets new class
+    objects: process-level state of the limiter (class attributes, module globals) cannot leak from one run of a worker
+    into the next, and a run stays a function of its choices (replayable in a fresh interpreter)."""
+    import hailtop.utils.rate_limiter as mod
+    path = mod.__spec__.origin
+    code = _CODE.get(path)
+    if code is None:
+        with open(path, 'rb') as f:
+            code = _CODE[path] = compile(f.read(), path, 'exec')
+    exec(code, mod.__dict__)  # pylint: disable=exec-used
+    return mod
+
+
+class _Lim:
+    """harness-side record of one limiter instance: its parameters and its own admission history."""
+
+    def __init__(self, idx, count, window_g):
+        self.idx = idx
+        self.count = count
+        self.window_g = window_g              # in 1/1024 s
+        self.window_s = window_g / 1024
+        self.W = window_g * 1024              # window in 2^-20 s ticks
+        self.adm = []
+        self.blocked = {}
+        self.limiter = None
+
+    def in_window(self, t, tol=0):
+        """admissions a of this limiter with t - W - tol < a <= t."""
+        n = 0
+        for a in reversed(self.adm):
+            if a <= t - self.W - tol:
+                break
+            n += 1
+        return n
+
+
 def run(ctx):
     from simkit import shim
     shim.install()
-    from hailtop.utils.rate_limiter import RateLimit, RateLimiter
+    rl = _fresh_rate_limiter_module()
+    RateLimit, RateLimiter = rl.RateLimit, rl.RateLimiter
 
     wide = ctx.tier == 'thorough'
     cfg = ctx.stream('cfg')
     count = cfg.rint(1, 5)
-    window_g = cfg.rint(1, 64 if wide else 24)       # in 1/1024 s
+    max_window_g = 64 if wide else 24
+    window_g = cfg.rint(1, max_window_g)             # in 1/1024 s
     n_tasks = cfg.rint(1, 8 if wide else 6)
     max_entries = 6 if wide else 4
     epoch = 1_700_000_000.0 + cfg.draw(86_400 * 30)
-    window_s = window_g / 1024
-    W = window_g * 1024                              # window in 2^-20 s ticks
+    # further limiter instances alive in the same process (two rate-limited cloud clients), each with a RateLimit of
+    # its own; 0 = the single limiter
+    n_lim = 1 + cfg.weighted([5, 3, 2])
+    lims = [_Lim(0, count, window_g)]
+    for j in range(1, n_lim):
+        ls = ctx.stream(f'limiter{j}')
+        lims.append(_Lim(j, ls.rint(1, 5), ls.rint(1, max_window_g)))
+    big_g = max(L.window_g for L in lims)
     log = ctx.log
-    st = {'adm': [], 'blocked': {}, 'violation': None, 'n_inv': 0, 'loop': None}
+    st = {'violation': None, 'n_inv': 0, 'loop': None}
+    if n_lim > 1:
+        ctx.probe('several_limiters')
+        if len({L.window_g for L in lims}) > 1:
+            ctx.probe('limiters_with_different_windows')
+        log.add('cfg', 'limiters', tuple((L.count, L.window_g) for L in lims))
 
     def fail(oracle, signature, detail):
+        if n_lim > 1:
+            detail += '; limiters alive in this process (count, window s): ' + \
+                ', '.join(f'#{L.idx}=({L.count}, {L.window_s})' for L in lims)
         v = Violation('C24', oracle, signature, detail)
         if st['violation'] is None:
             st['violation'] = v
@@ -116,36 +194,31 @@ def run(ctx):
         assert t == x, ('loop time off the grid', loop.time())
         return t
 
-    def in_window(t, tol=0):
-        """admissions a with t - W - tol < a <= t."""
-        n = 0
-        for a in reversed(st['adm']):
-            if a <= t - W - tol:
-                break
-            n += 1
-        return n
-
     def check_blocked(loop, where):
         if st['violation'] is not None:
             raise st['violation']
-        if not st['blocked']:
+        if not any(L.blocked for L in lims):
             return
         if where == 'idle' and _timer_due_now(loop):
             return  # this instant is not over yet
         t = now_ticks(loop)
-        n = in_window(t, ASAP_TOL_TICKS)
-        if len(st['blocked']) >= 2:
-            ctx.probe('several_blocked')
-        if n < count:
-            who = sorted(st['blocked'])
-            log.add('oracle', 'blocked_with_room', who, n, count, where)
-            fail('asap', 'C24/asap/blocked_with_room_in_window',
-                 f'{where} at t={t / TPS:.6f}: {who} suspended in __aenter__ while only {n} of {count} admissions lie in '
-                 f'the trailing window of {window_s} s')
+        for L in lims:
+            if not L.blocked:
+                continue
+            n = L.in_window(t, ASAP_TOL_TICKS)
+            if len(L.blocked) >= 2:
+                ctx.probe('several_blocked')
+            if n < L.count:
+                who = sorted(L.blocked)
+                log.add('oracle', 'blocked_with_room', L.idx, who, n, L.count, where)
+                fail('asap', 'C24/asap/blocked_with_room_in_window',
+                     f'{where} at t={t / TPS:.6f}: {who} suspended in __aenter__ of limiter #{L.idx} while only {n} of '
+                     f'{L.count} of its admissions lie in the trailing window of {L.window_s} s')
 
     async def main(loop):
         st['loop'] = loop
-        limiter = RateLimiter(RateLimit(count, window_s))
+        for L in lims:
+            L.limiter = RateLimiter(RateLimit(L.count, L.window_s))
 
         def stop_on_violation():
             if st['violation'] is not None:
@@ -154,42 +227,61 @@ def run(ctx):
         loop.step_hooks.append(stop_on_violation)
         loop.idle_hooks.append(lambda: check_blocked(loop, 'idle'))
 
-        def admitted(me, inv):
+        def admitted(me, inv, L):
             t = now_ticks(loop)
             waited = loop.steps != inv['step']
-            st['blocked'].pop(me, None)
-            st['adm'].append(t)
-            n = in_window(t)
-            log.add(me, 'admitted', n, 'waited' if waited else 'at_once')
-            if n > count:
-                first = st['adm'][-n]
+            L.blocked.pop(me, None)
+            L.adm.append(t)
+            n = L.in_window(t)
+            if n_lim > 1:
+                log.add(me, 'admitted', n, 'waited' if waited else 'at_once', L.idx)
+            else:
+                log.add(me, 'admitted', n, 'waited' if waited else 'at_once')
+            if n > L.count:
+                first = L.adm[-n]
                 fail('rate', 'C24/rate/more_than_count_in_window',
-                     f'admission at t={t / TPS:.6f} is number {n} in ({(t - W) / TPS:.6f}, {t / TPS:.6f}] '
-                     f'(oldest at {first / TPS:.6f}); count={count} window={window_s} s')
-            if n == count:
+                     f'admission at t={t / TPS:.6f} is number {n} in ({(t - L.W) / TPS:.6f}, {t / TPS:.6f}] of limiter '
+                     f'#{L.idx} (oldest at {first / TPS:.6f}); count={L.count} window={L.window_s} s')
+            if n == L.count:
                 ctx.probe('window_full_at_admission')
             if waited:
                 ctx.probe('limiter_blocked')
-                if len(st['adm']) > count and st['adm'][-count - 1] + W == t:
+                if len(L.adm) > L.count and L.adm[-L.count - 1] + L.W == t:
                     ctx.probe('admitted_at_exact_expiry')
                 if inv['overtaken']:
                     ctx.probe('later_arrival_admitted_first')
-            for other in st['blocked'].values():
+            for other in L.blocked.values():
                 if other['id'] < inv['id']:
                     other['overtaken'] = True
+            for M in lims:
+                if M is L:
+                    continue
+                if M.blocked:
+                    ctx.probe('admission_while_other_limiter_blocks')
+                m = M.in_window(t)
+                if m >= M.count:
+                    ctx.probe('admission_while_other_limiter_full')
+                if m and M.W > L.W and any(t - M.W < a <= t - L.W for a in M.adm[-m:]):
+                    # an admission of the other limiter that is older than this limiter's window and still inside
+                    # that limiter's own window
+                    ctx.probe('other_limiters_entry_outlives_this_window')
 
-        async def entry(me, inv, hold, raises):
+        async def entry(me, inv, hold, raises, L):
             # one `async with limiter:` in a task of its own, so that it can be cancelled alone
+            limiter = L.limiter
             st['n_inv'] += 1
             inv['id'] = st['n_inv']
             inv['step'] = loop.steps
             inv['phase'] = 'aenter'
-            log.add(me, 'enter_invoke')
-            st['blocked'][me] = inv
+            if n_lim > 1:
+                log.add(me, 'enter_invoke', L.idx)
+            else:
+                log.add(me, 'enter_invoke')
+            L.blocked[me] = inv
             try:
                 async with limiter:
                     inv['phase'] = 'body'
-                    admitted(me, inv)
+                    admitted(me, inv, L)
                     await asyncio.sleep(hold)
                     if raises:
                         ctx.probe('body_raised')
@@ -203,7 +295,7 @@ def run(ctx):
                     raise RuntimeError(f'{me}: CancelledError although nobody cancelled this entry') from None
                 # an entry cancelled while it waits in __aenter__ was never admitted and leaves; one cancelled in
                 # its body was admitted and counts
-                st['blocked'].pop(me, None)
+                L.blocked.pop(me, None)
                 log.add(me, 'cancelled_in', inv['phase'])
                 inv['phase'] = 'done'
 
@@ -223,15 +315,21 @@ def run(ctx):
             me = f'e{i}'
             n_entries = s.rint(1, max_entries)
             pace = s.draw(3)
-            think_max = (3, window_g, 2 * window_g)[pace]
+            # with several limiters: a home limiter per actor, and per entry a seeded choice between the home limiter
+            # (0) and any of them
+            home = lims[s.draw(n_lim)] if n_lim > 1 else lims[0]
             for _ in range(n_entries):
+                L = home
+                if n_lim > 1 and s.draw(2):
+                    L = lims[s.draw(n_lim)]
+                think_max = (3, L.window_g, 2 * L.window_g)[pace]
                 await asyncio.sleep(s.ticks(think_max))
                 hold = s.ticks(4)
                 raises = s.draw(6) == 5
                 inv = {'id': None, 'step': None, 'overtaken': False, 'cancelled': False, 'phase': 'new'}
-                sub = asyncio.create_task(entry(me, inv, hold, raises), name=me)
+                sub = asyncio.create_task(entry(me, inv, hold, raises, L), name=me)
                 if c.chance(0.12):
-                    loop.call_later(c.ticks(max(8, window_g)), do_cancel, me, inv, sub)
+                    loop.call_later(c.ticks(max(8, L.window_g)), do_cancel, me, inv, sub)
                 await asyncio.wait({sub})
                 if not sub.cancelled() and sub.exception() is not None:
                     raise sub.exception()
@@ -241,23 +339,24 @@ def run(ctx):
             # 1/1024 s ticks inside one callback, every timer due in the skipped span fires late (at the new now)
             s = ctx.stream('fault:loop.stall')
             for _ in range(s.weighted([3, 2, 1, 1])):
-                await asyncio.sleep(s.ticks(2 * window_g))
-                jump_g = s.rint(1, 2 * window_g)
+                await asyncio.sleep(s.ticks(2 * big_g))
+                jump_g = s.rint(1, 2 * big_g)
                 t0 = now_ticks(loop)
                 loop._now = loop.quantize(loop._now + jump_g / 1024)  # pylint: disable=protected-access
                 t1 = now_ticks(loop)
                 assert t1 - t0 == jump_g * 1024
                 ctx.fault('loop.stall')
                 log.add('staller', 'stall', jump_g)
-                if st['blocked']:
-                    ctx.probe('stall_while_entrant_blocked')
-                    if len(st['adm']) >= count and st['adm'][-count] + W < t1:
-                        # the sleep of a blocked entrant ends inside the skipped span: it wakes later than asked
-                        ctx.probe('sleep_overshoots')
+                for L in lims:
+                    if L.blocked:
+                        ctx.probe('stall_while_entrant_blocked')
+                        if len(L.adm) >= L.count and L.adm[-L.count] + L.W < t1:
+                            # the sleep of a blocked entrant ends inside the skipped span: it wakes later than asked
+                            ctx.probe('sleep_overshoots')
 
         tasks = [asyncio.create_task(entrant(i), name=f'a{i}') for i in range(n_tasks)]
         tasks.append(asyncio.create_task(staller(), name='staller'))
-        horizon = (n_tasks * max_entries + 2) * (3 * window_s + 1.0)
+        horizon = (n_tasks * max_entries + 2) * (3 * big_g / 1024 + 1.0)
         done, pending = await asyncio.wait(tasks, timeout=horizon)
         if st['violation'] is not None:
             raise st['violation']
@@ -267,7 +366,7 @@ def run(ctx):
         if pending:
             check_blocked(loop, 'horizon')
             raise RuntimeError(f'entrants never finished: {sorted(t.get_name() for t in pending)}')
-        log.add('oracle', 'all_admitted', len(st['adm']))
+        log.add('oracle', 'all_admitted', sum(len(L.adm) for L in lims))
 
     _res, outcome = simulate(ctx, main, max_steps=6_000, epoch=epoch)
     if outcome == 'cap':
@@ -275,18 +374,19 @@ def run(ctx):
         # exact instant of the grid, so no tolerance here.
         if st['violation'] is not None:
             raise st['violation']
-        log.add('oracle', 'step_cap', sorted(st['blocked']))
-        if st['blocked']:
-            t = int(round(ctx.sim_time * TPS))
-            n = in_window(t)
-            if n < count:
-                fail('asap', 'C24/asap/blocked_with_room_in_window',
-                     f'spinning at t={t / TPS:.6f}: {sorted(st["blocked"])} never leave __aenter__ while only {n} of '
-                     f'{count} admissions lie in the trailing window of {window_s} s')
+        log.add('oracle', 'step_cap', tuple(tuple(sorted(L.blocked)) for L in lims))
+        t = int(round(ctx.sim_time * TPS))
+        for L in lims:
+            if L.blocked:
+                n = L.in_window(t)
+                if n < L.count:
+                    fail('asap', 'C24/asap/blocked_with_room_in_window',
+                         f'spinning at t={t / TPS:.6f}: {sorted(L.blocked)} never leave __aenter__ of limiter #{L.idx} '
+                         f'while only {n} of {L.count} of its admissions lie in the trailing window of {L.window_s} s')
         raise RuntimeError('step cap reached but no entrant is blocked with room in the window')
     if outcome != 'done':
         raise RuntimeError(f'unexpected outcome {outcome}')
-    ctx.extra['admissions'] = len(st['adm'])
+    ctx.extra['admissions'] = sum(len(L.adm) for L in lims)
 
 
 def nontrivial(r):
